@@ -26,7 +26,7 @@ var Monitors = map[string]Monitor{
 // C15: no panic.
 func C15(v *View) []Violation {
 	if v.Rec.Panic != nil {
-		return []Violation{viol("C15", "panic", "reconcile panicked: %v", v.Rec.Panic)}
+		return []Violation{viol("C15", "panic@"+PanicSite(v.Rec.Stack), "reconcile panicked: %v", v.Rec.Panic)}
 	}
 	return nil
 }
@@ -390,3 +390,6 @@ func Census(st *world.State, set *asv1.StatefulSet) (replicas, ready, current, u
 	}
 	return
 }
+
+// PanicSite is set by the explore package (avoids an import cycle).
+var PanicSite = func(stack string) string { return "unknown" }
